@@ -120,17 +120,6 @@ func genSighash(e *emitter, tier string, seed uint64, legacy bool) {
 		}
 		e.note(fmt.Sprintf("shape.in%d.out%d", minInt(nIn, 4), minInt(nOut, 4)))
 	}
-	// odd-length previous txids (only reachable through the JSON decoder) — FORKID algorithm only,
-	// the legacy path clones (log.Fatal on a non-32-byte txid; outside C03's quantifier)
-	if !legacy {
-		for _, l := range []int{0, 1, 31, 33} {
-			tx := genSigTx(r, 2, 2, false)
-			setRawTxID(tx.Inputs[1], r.bytes(l))
-			for _, f := range []int{0x41, 0xc3, 0x42} {
-				e.run(op, descTx(tx), "1", strconv.Itoa(f))
-			}
-		}
-	}
 	// the shipped node vectors validate the specification functions
 	file := "/repo/bscript/interpreter/data/sighash_bip143.json"
 	kind := "bip143"
